@@ -236,10 +236,6 @@ def mutate(t, rng):
 def fingerprint(t, rej):
     k = rej.reached
     e = t["ev"][k] if k < len(t["ev"]) else {"e": "eof"}
-    n = 0
-    for x in t["ev"][:k + 1]:
-        if x["e"] == "begin":
-            n = x["n"]
     if e["e"] == "obs":
         # what differs is decided by TLC; name the observation kind that could not be matched
         return "%s/%s obs %s" % (t["cfg"]["shape"], t["cfg"]["kind"], e["who"])
@@ -292,7 +288,7 @@ def run(ctx):
     for cfg in all_shapes():
         if ctx.quick:
             lengths = [10, 100, 1000]
-            if (cfg["shape"], cfg["kind"]) in (("S1", "ok"), ("S3", "err"), ("G1", "ok"), ("G2", "ok")):
+            if (cfg["shape"], cfg["kind"]) in (("S1", "ok"), ("S1", "err"), ("G1", "ok")):
                 lengths.append(10000)
         else:
             lengths = [7, 10, 100, 1000, 10000]
